@@ -336,6 +336,7 @@ func checkInvariants(w *World, ctx string) *Violation {
 		if st.MaxBuckets > w.stats.MaxBuckets {
 			w.stats.MaxBuckets = st.MaxBuckets
 		}
+		w.curBuckets = st.MaxBuckets
 	}
 	return nil
 }
